@@ -14,8 +14,8 @@ from ..engine import seq_iter, seq_shards
 ID = "C12"
 LEAN = True  # cases are distinct by construction; see engine.Acc
 RULE = (
-    "every token sequence over a 16-token alphabet (words, 'and' in three cases, partial 'an'/'d', space/tab/newline, '~', ',', "
-    "braces, backslash escapes) up to the length bound, plus every list of 1-4 catalogue names joined by every separator spelling; "
+    "every token sequence over a 19-token alphabet (words, 'and' in three cases, partial 'an'/'d', space/tab/newline, '~', ',', "
+    "braces, backslash escapes, CR, NBSP, VT) up to the length bound, plus every list of 1-4 catalogue names joined by every separator spelling; "
     "conservation and idempotence on every string, the exact separator rule (independent word-based reference splitter) on every "
     "brace-balanced one, and the same through SeparateCoAuthors/MergeCoAuthors. Non-trivial = the reference finds a separator or "
     "the string contains an 'and' look-alike that is not one (distinct by string)."
@@ -23,7 +23,8 @@ RULE = (
 ASSUMPTIONS = ["whitespace for this clause is the set documented by the co-author code: space, CR, LF, tab"]
 STATIC_SAMPLES = ["A B and \\'Etienne C", "x a\\xnd y"]
 
-SIGMA = ["A", " ", "and", "AND", "aNd", "an", "d", "\t", "\n", "~", ",", "{", "}", "\\x", "\\ ", "\\"]
+SIGMA = ["A", " ", "and", "AND", "aNd", "an", "d", "\t", "\n", "~", ",", "{", "}", "\\x", "\\ ", "\\",
+         "\r", "\xa0", "\x0b"]  # CR is a separator; NBSP and VT are whitespace for str.isspace() but not for this rule
 SIGMA_CORE = ["A", " ", "and", "aNd", "an", "d", "\t", "{", "}", "\\x"]
 
 CATALOGUE = [
